@@ -389,6 +389,244 @@ fn sign_all(ctx: &Ctx, thorough: bool) -> Vec<Signed> {
 }
 
 // ------------------------------------------------------------------------------------------------
+// degenerate encodings: keys no private key produces, signatures no signer produces
+// ------------------------------------------------------------------------------------------------
+
+fn hx(s: &str) -> Vec<u8> {
+    crate::unhex_strict(s).expect("hex literal")
+}
+
+/// The 8 points of small order on edwards25519 (canonical encodings) + their non-canonical encodings
+/// (y >= p, i.e. y = p and y = p + 1, and the "negative zero" x sign bit on the points with x = 0).
+fn ed_small_order_encodings() -> Vec<(String, Vec<u8>)> {
+    let mut v: Vec<(String, Vec<u8>)> = vec![
+        ("identity(order1)".into(), hx("0100000000000000000000000000000000000000000000000000000000000000")),
+        ("y=-1(order2)".into(), hx("ecffffffffffffffffffffffffffffffffffffffffffffffffffffffffffff7f")),
+        ("y=0(order4)".into(), hx("0000000000000000000000000000000000000000000000000000000000000000")),
+        ("y=0,sign(order4)".into(), hx("0000000000000000000000000000000000000000000000000000000000000080")),
+        ("order8-a".into(), hx("26e8958fc2b227b045c3f489f2ef98f0d5dfac05d3c63339b13802886d53fc05")),
+        ("order8-a,sign".into(), hx("26e8958fc2b227b045c3f489f2ef98f0d5dfac05d3c63339b13802886d53fc85")),
+        ("order8-b".into(), hx("c7176a703d4dd84fba3c0b760d10670f2a2053fa2c39ccc64ec7fd7792ac037a")),
+        ("order8-b,sign".into(), hx("c7176a703d4dd84fba3c0b760d10670f2a2053fa2c39ccc64ec7fd7792ac03fa")),
+        // non-canonical
+        ("identity,negative-zero".into(), hx("0100000000000000000000000000000000000000000000000000000000000080")),
+        ("y=-1,negative-zero".into(), hx("ecffffffffffffffffffffffffffffffffffffffffffffffffffffffffffffff")),
+        ("y=p(=0)".into(), hx("edffffffffffffffffffffffffffffffffffffffffffffffffffffffffffff7f")),
+        ("y=p(=0),sign".into(), hx("edffffffffffffffffffffffffffffffffffffffffffffffffffffffffffffff")),
+        ("y=p+1(=1)".into(), hx("eeffffffffffffffffffffffffffffffffffffffffffffffffffffffffffff7f")),
+        ("y=p+1(=1),sign".into(), hx("eeffffffffffffffffffffffffffffffffffffffffffffffffffffffffffffff")),
+    ];
+    v.push(("all-ones".into(), vec![0xff; 32]));
+    v
+}
+
+const ED_L_LE: &str = "edd3f55c1a631258d69cf7a2def9de1400000000000000000000000000000010";
+
+struct Degenerate {
+    scheme: Scheme,
+    label: String,
+    pk: Vec<u8>,
+    sig: Vec<u8>,
+}
+
+/// (key, signature) pairs built from degenerate encodings, crossed with an honest key / honest signature parts.
+fn degenerate_space(signed: &[Signed]) -> Vec<Degenerate> {
+    let mut out = vec![];
+    // ---- ed25519: pk in small-order encodings (+ honest) x R in the same set (+ honest R) x s in {0,1,L,L-1,honest s}
+    if let Some(h) = signed.iter().find(|s| s.scheme == Scheme::Ed && s.key_label.starts_with("derived")) {
+        let mut pks = ed_small_order_encodings();
+        pks.push(("honest-key".into(), h.pk.clone()));
+        let mut rs = ed_small_order_encodings();
+        rs.push(("honest-R".into(), h.sig[..32].to_vec()));
+        let l = hx(ED_L_LE);
+        let mut l_minus_1 = l.clone();
+        l_minus_1[0] -= 1;
+        let mut one = vec![0u8; 32];
+        one[0] = 1;
+        let ss: Vec<(String, Vec<u8>)> = vec![("s=0".into(), vec![0u8; 32]), ("s=1".into(), one), ("s=L".into(), l), ("s=L-1".into(), l_minus_1), ("honest-s".into(), h.sig[32..].to_vec()), ("s=ones".into(), vec![0xff; 32])];
+        for (pl, pk) in &pks {
+            for (rl, r) in &rs {
+                for (sl, sv) in &ss {
+                    if pl == "honest-key" && rl == "honest-R" && sl == "honest-s" {
+                        continue; // the honest triple is covered by the main sweep
+                    }
+                    let mut sig = r.clone();
+                    sig.extend_from_slice(sv);
+                    out.push(Degenerate { scheme: Scheme::Ed, label: format!("pk={pl} R={rl} {sl}"), pk: pk.clone(), sig });
+                }
+            }
+        }
+    }
+    // ---- secp256k1: invalid / infinity key encodings (+ honest) x r,s in {0, 1, n, n-1, honest} x recovery id 0..=3
+    if let Some(h) = signed.iter().find(|s| s.scheme == Scheme::Secp && s.key_label.starts_with("derived")) {
+        let p_hex = "fffffffffffffffffffffffffffffffffffffffffffffffffffffffefffffc2f";
+        let mut pks: Vec<(String, Vec<u8>)> = vec![
+            ("all-zero(infinity)".into(), vec![0u8; 33]),
+            ("02,x=0(not-on-curve)".into(), hx(&format!("02{}", "00".repeat(32)))),
+            ("03,x=0(not-on-curve)".into(), hx(&format!("03{}", "00".repeat(32)))),
+            ("02,x=p".into(), hx(&format!("02{p_hex}"))),
+            ("02,x=ones".into(), hx(&format!("02{}", "ff".repeat(32)))),
+            ("all-ones".into(), vec![0xff; 33]),
+        ];
+        for prefix in [0x00u8, 0x01, 0x04, 0x05, 0x06, 0x07] {
+            let mut k = h.pk.clone();
+            k[0] = prefix;
+            pks.push((format!("honest-x,prefix={prefix:02x}"), k));
+        }
+        pks.push(("honest-key".into(), h.pk.clone()));
+        let n_minus_1 = sub_be(&SECP_N, &small(1));
+        let vals: Vec<(String, Vec<u8>)> = vec![("0".into(), vec![0u8; 32]), ("1".into(), small(1).to_vec()), ("n".into(), SECP_N.to_vec()), ("n-1".into(), n_minus_1.to_vec()), ("ones".into(), vec![0xff; 32])];
+        let mut rvals = vals.clone();
+        rvals.push(("honest".into(), h.sig[1..33].to_vec()));
+        let mut svals = vals;
+        svals.push(("honest".into(), h.sig[33..65].to_vec()));
+        for (pl, pk) in &pks {
+            for (rl, r) in &rvals {
+                for (sl, sv) in &svals {
+                    let honest_rs = rl == "honest" && sl == "honest";
+                    if pl == "honest-key" && honest_rs {
+                        continue;
+                    }
+                    for recid in 0..4u8 {
+                        if !honest_rs && pl != "honest-key" && recid > 0 {
+                            continue; // the recovery id only matters for recovery, which ignores the key
+                        }
+                        let mut sig = vec![recid];
+                        sig.extend_from_slice(r);
+                        sig.extend_from_slice(sv);
+                        out.push(Degenerate { scheme: Scheme::Secp, label: format!("pk={pl} r={rl} s={sl} recid={recid}"), pk: pk.clone(), sig });
+                    }
+                }
+            }
+        }
+    }
+    // ---- BLS12-381: infinity / zero / flag-only encodings of key and signature (+ honest)
+    if let Some(h) = signed.iter().find(|s| s.scheme == Scheme::Bls && s.key_label.starts_with("derived")) {
+        let enc = |len: usize, first: u8, last: u8| {
+            let mut v = vec![0u8; len];
+            v[0] = first;
+            v[len - 1] |= last;
+            v
+        };
+        let mut pks: Vec<(String, Vec<u8>)> = vec![
+            ("infinity(c0)".into(), enc(48, 0xc0, 0)),
+            ("infinity-flag,not-compressed(40)".into(), enc(48, 0x40, 0)),
+            ("infinity+sign(e0)".into(), enc(48, 0xe0, 0)),
+            ("infinity,trailing-1".into(), enc(48, 0xc0, 1)),
+            ("all-zero".into(), enc(48, 0, 0)),
+            ("compressed,x=0(80)".into(), enc(48, 0x80, 0)),
+            ("all-ones".into(), vec![0xff; 48]),
+        ];
+        pks.push(("honest-key".into(), h.pk.clone()));
+        let mut sigs: Vec<(String, Vec<u8>)> = vec![
+            ("infinity(c0)".into(), enc(96, 0xc0, 0)),
+            ("infinity-flag,not-compressed(40)".into(), enc(96, 0x40, 0)),
+            ("infinity+sign(e0)".into(), enc(96, 0xe0, 0)),
+            ("infinity,trailing-1".into(), enc(96, 0xc0, 1)),
+            ("all-zero".into(), enc(96, 0, 0)),
+            ("compressed,x=0(80)".into(), enc(96, 0x80, 0)),
+            ("all-ones".into(), vec![0xff; 96]),
+        ];
+        sigs.push(("honest-signature".into(), h.sig.clone()));
+        for (pl, pk) in &pks {
+            for (sl, sig) in &sigs {
+                if pl == "honest-key" && sl == "honest-signature" {
+                    continue;
+                }
+                out.push(Degenerate { scheme: Scheme::Bls, label: format!("pk={pl} sig={sl}"), pk: pk.clone(), sig: sig.clone() });
+            }
+        }
+    }
+    out
+}
+
+/// secp256k1: two hashes denote the same ECDSA message iff congruent mod n
+fn secp_same_z(a: &[u8], b: &[u8]) -> bool {
+    let red = |m: &[u8]| -> [u8; 32] {
+        let a: [u8; 32] = m.try_into().unwrap();
+        if a >= SECP_N {
+            sub_be(&a, &SECP_N)
+        } else {
+            a
+        }
+    };
+    red(a) == red(b)
+}
+
+/// Literal consequence of the statement ("any change to the message makes verification fail"): one fixed
+/// (key, signature) pair must not verify for two different messages; for secp256k1 recovery, one signature must
+/// not recover the same key for two different messages. A single acceptance is informational (the statement
+/// does not say that only signers can produce verifying signatures).
+fn check_degenerate(d: &Degenerate, msgs: &[Vec<u8>], l: &mut Local) {
+    let name = d.scheme.name();
+    let mut verified: Vec<&Vec<u8>> = vec![];
+    let mut recovered: Vec<(&Vec<u8>, Vec<u8>)> = vec![];
+    let case = |extra: Value| json!({"kind": "degenerate", "scheme": name, "label": d.label, "public_key": mc_core::hex(&d.pk), "signature": mc_core::hex(&d.sig), "messages": extra});
+    for m in msgs {
+        l.eval();
+        match verify_raw(d.scheme, &d.pk, m, &d.sig) {
+            Err(p) => {
+                l.violation(format!("{name}:verify-panics:degenerate"), format!("verification panicked on degenerate input {}: {p} at {}", d.label, mc_core::last_panic_location()), case(json!([mc_core::hex(m)])));
+                return;
+            }
+            Ok(o) => {
+                if o.verified {
+                    verified.push(m);
+                }
+                if let Some(k) = o.recovered {
+                    recovered.push((m, k));
+                }
+            }
+        }
+    }
+    let mut bad = false;
+    for (i, a) in verified.iter().enumerate() {
+        for b in verified.iter().skip(i + 1) {
+            if d.scheme == Scheme::Secp && secp_same_z(a, b) {
+                continue;
+            }
+            if !bad {
+                l.violation(
+                    format!("{name}:one-key-and-signature-verify-two-messages"),
+                    format!("{name}: the fixed pair ({}) verifies for two different messages {} and {} ({} of {} messages verify)", d.label, mc_core::hex(a), mc_core::hex(b), verified.len(), msgs.len()),
+                    case(json!([mc_core::hex(a), mc_core::hex(b)])),
+                );
+            }
+            bad = true;
+        }
+    }
+    let mut bad_rec = false;
+    for (i, (ma, ka)) in recovered.iter().enumerate() {
+        for (mb, kb) in recovered.iter().skip(i + 1) {
+            if ka == kb && !secp_same_z(ma, mb) && !bad_rec {
+                bad_rec = true;
+                l.violation(
+                    "secp256k1:one-signature-recovers-same-key-for-two-messages",
+                    format!("signature ({}) recovers {} for both {} and {}", d.label, mc_core::hex(ka), mc_core::hex(ma), mc_core::hex(mb)),
+                    case(json!([mc_core::hex(ma), mc_core::hex(mb)])),
+                );
+            }
+        }
+    }
+    if bad || bad_rec {
+        return;
+    }
+    if verified.is_empty() {
+        l.class(match d.scheme {
+            Scheme::Secp => "degenerate:secp256k1-rejected-for-every-message",
+            Scheme::Ed => "degenerate:ed25519-rejected-for-every-message",
+            Scheme::Bls => "degenerate:bls12381-rejected-for-every-message",
+        });
+    } else {
+        l.class("degenerate:verifies-for-exactly-one-message");
+        l.info(&format!("{name}:degenerate-pair-verifies-for-one-message"));
+    }
+    if !recovered.is_empty() {
+        l.info("secp256k1:degenerate-signature-recovers-some-key");
+    }
+}
+
+// ------------------------------------------------------------------------------------------------
 // BLS aggregates
 // ------------------------------------------------------------------------------------------------
 
@@ -542,6 +780,15 @@ fn replay(ctx: Ctx, case: Value) -> ! {
             check_aggregate(&w, &list, same, &comps, &mut l, &hard);
             println!("REPLAY aggregate list={list:?} same_message={same} components={comps:?}");
         }
+        "degenerate" => {
+            let scheme = Scheme::from_name(&gs("scheme")).unwrap_or_else(|| mc_core::machinery_error("C48 replay: unknown scheme"));
+            let d = Degenerate { scheme, label: gs("label"), pk: mc_core::unhex(&gs("public_key")), sig: mc_core::unhex(&gs("signature")) };
+            let msgs: Vec<Vec<u8>> = case["messages"].as_array().map(|a| a.iter().map(|m| mc_core::unhex(m.as_str().unwrap_or(""))).collect()).unwrap_or_default();
+            for m in &msgs {
+                println!("REPLAY {} pk={} sig={} msg={} -> {:?}", scheme.name(), gs("public_key"), gs("signature"), mc_core::hex(m), verify_raw(scheme, &d.pk, m, &d.sig));
+            }
+            check_degenerate(&d, &msgs, &mut l);
+        }
         "bls-aggregate-changed" => {
             let pairs: Vec<(Bls12381G1PublicKey, Vec<u8>)> = case["pairs"]
                 .as_array()
@@ -663,6 +910,73 @@ pub fn run(ctx: Ctx) -> ! {
             }
         }
     });
+
+    // ---- degenerate encodings (small-order / infinity / invalid keys, r,s in {0,n}, s in {0,1,L,L-1})
+    let degenerate = degenerate_space(&signed);
+    {
+        let msgs_of = |sc: Scheme| -> Vec<Vec<u8>> {
+            match sc {
+                Scheme::Secp => hashes(thorough),
+                Scheme::Ed => {
+                    let mut m = hashes(false);
+                    m.extend(var_messages(thorough));
+                    m
+                }
+                Scheme::Bls => var_messages(thorough),
+            }
+        };
+        let (ms, me, mb) = (msgs_of(Scheme::Secp), msgs_of(Scheme::Ed), msgs_of(Scheme::Bls));
+        par_for(&ctx, &degenerate, |d, l| {
+            check_degenerate(
+                d,
+                match d.scheme {
+                    Scheme::Secp => &ms,
+                    Scheme::Ed => &me,
+                    Scheme::Bls => &mb,
+                },
+                l,
+            )
+        });
+        // BLS aggregates over degenerate members: the same two-message law for the list forms
+        let mut l = Local::new();
+        let w0 = agg_world();
+        let mut inf_pk = [0u8; 48];
+        inf_pk[0] = 0xc0;
+        let mut inf_sig = [0u8; 96];
+        inf_sig[0] = 0xc0;
+        let honest_sig = w0.sks[0].sign_v1(&mb[0]);
+        for (label, keys, sig) in [
+            ("[infinity key] / infinity signature", vec![Bls12381G1PublicKey(inf_pk)], Bls12381G2Signature(inf_sig)),
+            ("[infinity key, infinity key] / infinity signature", vec![Bls12381G1PublicKey(inf_pk); 2], Bls12381G2Signature(inf_sig)),
+            ("[honest key, infinity key] / honest signature", vec![w0.pks[0], Bls12381G1PublicKey(inf_pk)], honest_sig),
+            ("[honest key] / infinity signature", vec![w0.pks[0]], Bls12381G2Signature(inf_sig)),
+        ] {
+            for (fname, f) in [
+                ("aggregate_verify", &(|m: &Vec<u8>| aggregate_verify_bls12381_v1(&keys.iter().map(|k| (*k, m.clone())).collect::<Vec<_>>(), &sig)) as &dyn Fn(&Vec<u8>) -> bool),
+                ("fast_aggregate_verify", &|m: &Vec<u8>| fast_aggregate_verify_bls12381_v1(m, &keys, &sig)),
+                ("fast_aggregate_verify_anemone", &|m: &Vec<u8>| fast_aggregate_verify_bls12381_v1_anemone(m, &keys, &sig)),
+            ] {
+                let mut ok_msgs = vec![];
+                for m in &mb {
+                    l.eval();
+                    match catch(|| f(m)) {
+                        Ok(true) => ok_msgs.push(mc_core::hex(m)),
+                        Ok(false) => {}
+                        Err(p) => l.violation(format!("bls12381:{fname}-panics:degenerate"), format!("{fname} on {label} panicked: {p}"), json!({"kind": "degenerate-aggregate", "label": label, "function": fname})),
+                    }
+                }
+                if ok_msgs.len() >= 2 {
+                    l.violation(format!("bls12381:{fname}:one-key-list-and-signature-verify-two-messages"), format!("{fname} on {label} verifies for {} different messages", ok_msgs.len()), json!({"kind": "degenerate-aggregate", "label": label, "function": fname, "messages": ok_msgs}));
+                } else if ok_msgs.len() == 1 {
+                    l.info(&format!("bls12381:{fname}:degenerate-list-verifies-for-one-message"));
+                    l.class("degenerate:verifies-for-exactly-one-message");
+                } else {
+                    l.class("degenerate:bls12381-aggregate-rejected-for-every-message");
+                }
+            }
+        }
+        ctx.merge(l);
+    }
 
     // ---- BLS aggregates
     let w = agg_world();
@@ -791,12 +1105,13 @@ pub fn run(ctx: Ctx) -> ! {
     cov.insert("changed_message_rejected".into(), json!(get("changed-message:rejected")));
     cov.insert("changed_public_key_rejected".into(), json!(get("changed-public-key:rejected")));
     cov.insert("changed_inputs_that_recover_a_different_key".into(), json!(get("changed:recovers-a-different-key")));
+    cov.insert("degenerate_key_signature_pairs".into(), json!(degenerate.len()));
     cov.insert("aggregate_scenarios".into(), json!(scenarios.len()));
     cov.insert("aggregate_scenarios_valid".into(), json!(agg_valid));
     cov.insert("well_formed_but_wrong_verifications".into(), json!(hard.load(Ordering::Relaxed)));
     ctx.finish(
         Level::Exploration,
-        "per scheme: every (key, message) of the stated sets signed and verified; every single-byte change (quick: bit flips + 00/FF; thorough: all 255 values) at every position of signature, message and public key; every signature against every other (key, message); BLS: every list of 1..=3 (key,message) pairs (duplicates allowed) x {distinct messages, common message} x every assignment of {good, wrong message, wrong key, other pair's signature} to the components, and every single-byte change of one valid 3-pair aggregate; a case is one verification call; non-trivial = fresh signatures verified + valid aggregates accepted + well-formed-but-wrong verifications (other key/message/pair, invalid aggregate components, changed inputs that still recover a key) rejected",
+        "per scheme: every (key, message) of the stated sets signed and verified; every single-byte change (quick: bit flips + 00/FF; thorough: all 255 values) at every position of signature, message and public key; every signature against every other (key, message); BLS: every list of 1..=3 (key,message) pairs (duplicates allowed) x {distinct messages, common message} x every assignment of {good, wrong message, wrong key, other pair's signature} to the components, and every single-byte change of one valid 3-pair aggregate; degenerate space: ed25519 all 8 small-order points + non-canonical encodings as key and as R x s in {0,1,L,L-1,honest,ones}, secp256k1 invalid/infinity/hybrid-prefix keys x r,s in {0,1,n,n-1,ones,honest} x recovery ids, BLS infinity/zero/flag-only keys and signatures (single and list forms), each fixed (key, signature) against the whole message set: must not verify (or recover the same key) for two different messages; a case is one verification call; non-trivial = fresh signatures verified + valid aggregates accepted + well-formed-but-wrong verifications (other key/message/pair, invalid aggregate components, changed inputs that still recover a key) rejected",
         nontrivial,
         true,
         cov,
